@@ -244,6 +244,13 @@ func runC04(c *core.Ctx) {
 	c.Doc("witness", 8, "in-memory variants swapping positions are rejected by the type checker")
 
 	c04Discover(c)
+	// every composite optic is built over the lenses NewLens / NewReflector hand out: "ShapeN / BiMap / Join touch only
+	// their component foci" presupposes that the constructor returns a fresh lens holding the very hseq.Type it was
+	// given, behind the type guard (a memoised / interned lens of another entry breaks every composite built on it).
+	// Shared with C01 / C02.
+	c.Doc("guard-dominates", 2, "every returning path of NewLens/NewReflector passed the type guard and returns a fresh lens of its argument")
+	c.Doc("guard-strength-B", 2, "the guard is type identity between the entry's field type and the focus type")
+	guardRules(c)
 	// orComposed: the field-role form of the equation, or - for a representation it does not recognise - the same
 	// equation stated on the value the constructor builds
 	orComposed := func(ok bool, kind, method string) bool {
